@@ -51,8 +51,12 @@ def mutator(rng, c, focus, h):
     elif c.is_bool:
         if r < 0.7:
             h.append('inv %s inplace=1' % n)
-        elif r < 0.85:
+        elif r < 0.8:
             h.append('bop %s op=%s const=%s inplace=1' % (n, rng.choice(['and', 'or', 'xor']), rng.choice('TF')))
+        elif r < 0.88 and c.sentinel in ('default', 'F'):
+            # the map combined with ITSELF (m ^= m empties it: whatever the operation looks up on its operand
+            # after it has reset its own cache must not come back as a stale count — seeded change C02f)
+            h.append('bop %s op=%s rhs=%s inplace=1' % (n, rng.choice(['xor', 'xor', 'and', 'or']), n))
         else:
             # operand map built on the fly (same configuration, ordinary boolean storage)
             o = gen.MapCfg('o', 'plain', c.covord, c.spord, dtype='b1')
